@@ -2,6 +2,8 @@
   C06 — TCC fence: idempotence, anti-suspension and empty rollback.
 -/
 import SeataModel.TCC.Fence
+import SeataModel.TCC.FenceRace
+import SeataModel.Lemmas.FenceRace
 namespace Seata.Props.C06
 open Seata.Fence
 
@@ -271,6 +273,43 @@ theorem C06_fix_is_local (p : Phase) (f : Option Nat) (cb : Bool) (s : BranchSt)
 /-! Counter-example against the shape at c3b0bd5: no suspension was recorded, so a late try went through. -/
 theorem C06_asCoded_no_suspension :
     fenceStepAsCoded_c3b0bd5 .rollback none = .refuse ∧ fenceStepAsCoded_c3b0bd5 .prepare none = .go .tried := by decide
+
+/-! ### two deliveries for the same branch racing (TCC/FenceRace.lean) -/
+
+open Seata.Fence.Race in
+/-- **racing deliveries are serializable**: two deliveries for one branch, in any of its five states, with
+    their database statements interleaved in ANY way (a schedule of 8 choices fixes the interleaving: a local
+    transaction has at most 4 statements after BEGIN; what is left afterwards runs to its end), end exactly like
+    one of the two serial orders, or like one delivery alone with the other refused (the coordinator delivers
+    it again), or with both refused — the durable record, the effect counters and the two answers -/
+theorem C06_race_serializable (db : BranchSt) (hdb : db ∈ Race.states) (pa pb : Phase) (ws : List Bool)
+    (hlen : ws.length = 8) : Race.outcome pa pb db ws ∈ Race.allowed pa pb db := by
+  have h := Seata.Lemmas.FenceRace.allSerializable_8
+  simp only [Race.allSerializable, List.all_eq_true] at h
+  have hpa : pa ∈ Race.phases := by cases pa <;> simp [Race.phases]
+  have hpb : pb ∈ Race.phases := by cases pb <;> simp [Race.phases]
+  have := h db hdb pa hpa pb hpb ws (Seata.Lemmas.FenceRace.mem_allScheds 8 ws hlen)
+  simpa using this
+
+open Seata.Fence.Race in
+/-- the five states are the states a branch can be in: every reachable state of `run` is one of them -/
+theorem C06_reachable_states (xs : List Delivery) (b : Nat) : Fence.get (run xs) b ∈ Race.states := by
+  obtain ⟨h1, h2, h3, h4, h5⟩ := run_inv xs b
+  generalize Fence.get (run xs) b = s at *
+  obtain ⟨row, t, c, k⟩ := s
+  cases row with
+  | none => have := h1 rfl; simp_all [Race.states]
+  | some st =>
+    cases st
+    · have := h2 rfl; simp_all [Race.states]
+    · have := h3 rfl; simp_all [Race.states]
+    · have := h4 rfl; simp_all [Race.states]
+    · have := h5 rfl; simp_all [Race.states]
+
+/-- an interleaving that is not a serial order: the rollback asks first (no record), the try then runs to its
+    end, the rollback's insert of the suspension meets the committed record (1062) and is refused -/
+example : Race.outcome .rollback .prepare {} [true, false, false, false, true, true, true, true] =
+    ({ row := some .tried, tries := 1 }, some .refused, some .ok) := by decide
 
 /-! Non-vacuity -/
 example : (Fence.get (run [{ branch := 2, phase := .rollback }, { branch := 2, phase := .prepare },
